@@ -13,9 +13,10 @@ from vlib.hx import fin, param
 
 NTOK = param("ntok", 1000000)
 class Toks:
-    """Duck-typed token list: token i sits on line i+1 (source order == index order) for ANY index, so symbolic indices need no case split."""
+    """Duck-typed token list: token i sits on line i // 3 + 1 at column i % 3 + 1 (three tokens per line; source order == index order)
+    for ANY index, so symbolic indices need no case split and headers may share a line."""
     def __getitem__(self, i):
-        return Token(Location(i + 1, 1), PT.Name, "t")
+        return Token(Location(i // 3 + 1, i % 3 + 1), PT.Name, "t")
 
     def __len__(self):
         return NTOK
@@ -86,7 +87,7 @@ def h_scopes(h0a: int, h0b: int, h1a: int, h1b: int, b0a: int, b0b: int, b1a: in
         own = su._scope_tokens(s, TOKENS)
         ok = ok and len(own) >= 1
         for t in own:
-            idx = t.location.line - 1
+            idx = (t.location.line - 1) * 3 + (t.location.column - 1)
             ok = ok and s.header.token_range.start <= idx < s.block.end
             for c in s.children:
                 ok = ok and not (c.header.token_range.start <= idx < c.block.end)
